@@ -634,7 +634,7 @@ class Generator:
     p = 0.9 if dense else rng.choice([0.1, 0.25, 0.5])
     if minimal:
       p = 0.0        # required attributes only (plus what the presence constraints need)
-    recipe = RECIPES.get(ctx.name) if (rng.random() < RECIPE_P and not minimal) else None
+    recipe = RECIPES.get(ctx.name) if (rng.random() < RECIPE_P and minimal != 'pure') else None
     chosen = []
     for a in ctx.attrs:
       if a.name in forbid:
@@ -644,6 +644,8 @@ class Generator:
       if recipe is not None and a.name in recipe:
         if recipe[a.name] is None:
           take = req
+        elif minimal == 'recipe':
+          take = True
         elif not take and ctx.name in ('composite', 'flexcomp', 'model', 'hfield', 'mesh', 'texture', 'layer', 'user',
                                        'extension_plugin', 'composite_geom', 'config', 'dcmotor', 'bone', 'fixed_joint',
                                        'pulley', 'damper', 'adhesion'):
@@ -770,13 +772,14 @@ class Generator:
       child = self.make_node(rng, c, doc, dense=dense and last, minimal=minimal)
       node.add(child)
       doc.register(child)
-      self._hooks(rng, doc, child)
+      if minimal != 'pure':
+        self._hooks(rng, doc, child, force=bool(minimal))
       node = child
     return node
 
-  def _hooks(self, rng, doc, node):
+  def _hooks(self, rng, doc, node, force=False):
     """Semantic hints that need more than one element (same status as RECIPES: not schema knowledge)."""
-    if rng.random() >= RECIPE_P:
+    if rng.random() >= RECIPE_P and not force:
       return
     name = node.ctx.name
     if name == 'composite':
